@@ -145,6 +145,12 @@ public:
         i->~T();
       _end.item = newEnd;
     }
+    else if(size > _capacity)
+    { // reserve() replaces the storage, which value may be an element of
+      const T copy(value);
+      reserve(size);
+      resize(size, copy);
+    }
     else
     {
       reserve(size);
